@@ -95,6 +95,13 @@ Theorem C34_slq_order_clamp :
     ((op_size <= requested)%nat -> clamp_order requested op_size = op_size).
 Proof. exact clamp_order_spec. Qed.
 
+(* options: the number of eigenvalues entering the trace-log does not depend on `verbose`, and
+   compute_all overrides whatever n_eigenvalues the caller passed *)
+Theorem C34_options :
+  forall (ca v1 v2 : bool) (n n_rel : nat),
+    effective_n ca v1 n n_rel = effective_n ca v2 n n_rel /\ effective_n true v1 n n_rel = Some n_rel.
+Proof. intros; split; reflexivity. Qed.
+
 (* non-vacuity: a resumed and a fresh schedule (the Lanczos hypotheses are exercised with Q^n and
    generated SPD matrices by the correspondence on every check run) *)
 Example C34_batches_example : batches 7 3 4 = [1; 2]%nat /\ batches 7 3 0 = [3; 2; 2]%nat.
